@@ -876,6 +876,28 @@ func (env *CEnv) call(x *CExpr) CV {
 				cfail("fresh() only in postconditions")
 			}
 			return CV{V: Or(Eq(t, IntLit(0)), IntLe(env.old.ac, t)), T: types.Typ[types.Bool]}
+		case "iref":
+			return CV{V: IfRef(env.asTerm(env.eval(x.Args[0])))}
+		case "ctxval":
+			// ctxval(ctx): the value a context made by context.WithValue carries (ghost)
+			cx := env.asTerm(env.eval(x.Args[0]))
+			var out *Term
+			env.withState(env.st, func() { out = Select(env.e.heapGet("GH.ctxval", "(Array Int Iface)"), IfRef(cx)) })
+			return CV{V: out}
+		case "ctxkeystr":
+			// ctxkeystr(ctx, s): the context was made by WithValue with the string key s
+			cx := env.asTerm(env.eval(x.Args[0]))
+			s := env.adapt(env.eval(x.Args[1]), SStr)
+			var out *Term
+			env.withState(env.st, func() {
+				k := Select(env.e.heapGet("GH.ctxkey", "(Array Int Iface)"), IfRef(cx))
+				bh := env.e.heapGet(boxHeapName(types.Typ[types.String]), ArraySort(SInt, SStr))
+				out = And(Eq(IfTag(k), IntLit(typeID(types.Typ[types.String]))), Eq(Select(bh, IfRef(k)), s))
+			})
+			return CV{V: out, T: types.Typ[types.Bool]}
+		case "ctxhasval":
+			cx := env.asTerm(env.eval(x.Args[0]))
+			return CV{V: Eq(IfTag(cx), IntLit(env.e.P.symbolID("tid.context.valueCtx"))), T: types.Typ[types.Bool]}
 		case "tagof":
 			v := env.eval(x.Args[0])
 			return CV{V: IfTag(env.asTerm(v))}
